@@ -213,6 +213,42 @@ def r3_approach_only_readonly(ctx):
                     st.targets[0], ast.Subscript) and "self.dataset" in norm(
                         st.targets[0]):
                 ctx.fail(st, norm(st)[:50], f"{acc} writes a curve column")
+    # nothing in the class edits the curve or its fit properties
+    from ..effects import MUT_METHODS
+    n_m = 0
+    for name, f in sorted(meths.items()):
+        if getattr(f, "_inlined_helper", False):
+            continue
+        Rm = Resolver(f)
+        for c in calls_in(f):
+            if isinstance(c.func, ast.Attribute) and c.func.attr in (
+                    MUT_METHODS | {"__setitem__", "__delitem__"}):
+                base = Rm.text(c.func.value) if hasattr(
+                    c.func.value, "_parent") else norm(c.func.value)
+                n_m += 1
+                ctx.check(not base.startswith("self.dataset"), c,
+                          f"{name}: {norm(c)[:50]} does not touch the curve",
+                          f"IndentationFeatures.{name} calls "
+                          f"`{norm(c)[:60]}` on the curve: computing "
+                          f"features changes the curve (e.g. setdefault "
+                          f"adds a fit-properties key behind "
+                          f"FitProperties.__setitem__)")
+        for st in walk_no_nested(f, False):
+            tg = []
+            if isinstance(st, ast.Assign):
+                tg = st.targets
+            elif isinstance(st, (ast.AugAssign, ast.AnnAssign)):
+                tg = [st.target]
+            elif isinstance(st, ast.Delete):
+                tg = st.targets
+            for t in tg:
+                if isinstance(t, (ast.Subscript, ast.Attribute)):
+                    base = Rm.text(t.value) if hasattr(
+                        t.value, "_parent") else norm(t.value)
+                    if base.startswith("self.dataset"):
+                        ctx.fail(st, f"{name}: {norm(st)[:50]}",
+                                 f"IndentationFeatures.{name} writes to the "
+                                 "curve")
     cp = meths["contact_point"]
     R = Resolver(cp)
     rets = [r for r in walk_no_nested(cp, False) if isinstance(r, ast.Return)]
